@@ -1723,6 +1723,15 @@ namespace link_layer {
             else if ( this->handle_phy_request( opcode, size, pdu, write, *this, commit ) )
             {
                 // all phy PDU handled in handle_phy_reqest
+
+                // a PHY update that is kept for its instant: the next connection event is connection_event_counter() + 1
+                if ( !defered_ll_control_pdu_.empty()
+                  && ( static_cast< std::uint16_t >( defered_conn_event_counter_ - this->connection_event_counter() - 1 ) & 0x8000 ) )
+                {
+                    defered_ll_control_pdu_ = write_buffer{ nullptr, 0 };
+                    disconnecting_reason_   = connection_instant_passed;
+                    result                  = ll_result::disconnect;
+                }
             }
             else if ( opcode != LL_UNKNOWN_RSP )
             {
